@@ -213,6 +213,29 @@ def reversedPairs (G : Graph n) (o : Orient n) : List (Nat × Nat) :=
 
 def divisorOf (o : Orient n) : Fin n → Int := fun v => o.inD v - 1
 
+/-- state-changing part of the orientation operations (queries leave the state alone; `reverse`
+    and `divisor` only refresh the fullness flags) -/
+inductive OOp where
+  | set (a b : Nat) (state : Nat) | full | needFull | query
+
+def oapply (G : Graph n) (o : Orient n) : OOp → Orient n
+  | .set a b s =>
+    match ref? n a, ref? n b with
+    | some u, some v =>
+      if s ≤ 2 then (match setO G o u v s with
+        | .ok o' => o'
+        | .error _ => o) else o
+    | _, _ => o
+  | .full => (checkFullness G o).1
+  | .needFull => (needFull G o).1
+  | .query => o
+
+/-- was a `set` request accepted? -/
+def oaccepts (G : Graph n) (o : Orient n) (a b s : Nat) : Bool :=
+  match ref? n a, ref? n b with
+  | some u, some v => decide (s ≤ 2) && (match setO G o u v s with | .ok _ => true | .error _ => false)
+  | _, _ => false
+
 end Orient
 
 /-- `canonical_divisor`: cached valence − 2 -/
